@@ -13,8 +13,9 @@ import ScrapliModel.PromptClass
     blank? = optional single trailing blank, only on the platforms whose vendor prints one
              (IOS-XR, NX-OS, EOS, Junos; not IOS-XE)
   Length limit ("length 1..limit" of the property): the text before the mode decoration is at most 63
-  bytes (the bound every scrapli pattern uses), so where the vendor prints something in front of the
-  hostname the hostname bound is reduced accordingly: IOS-XR host ≤ 48, `user@host` host ≤ 31.
+  bytes (the bound every scrapli pattern uses).  Where the vendor prints something in front of the
+  hostname (IOS-XR location, EOS / Junos `user@`) the bound applies to the whole head
+  (`head63 x = x ∩ Σ{1,63}`, with user and host of any length inside it).
   The NX-OS session pattern bounds the hostname by 32: NX-OS session prompts use host ≤ 32.
   Reserved sub-mode names are removed from `sub` where the vendor uses them for another mode:
     IOS-XE:  names ending in `tcl`         (the `(…tcl)` decoration is tclsh)
@@ -51,6 +52,12 @@ def sub : RE := cat (cls (bmLower ||| bmDigit)) (rep (cls (bmLower ||| bmDigit |
 /-- hostname of at most `n ≥ 2` bytes -/
 def hostN (n : Nat) : RE := cat alnum (opt (cat (rep (cls (bmAlnum ||| bmOfList [95, 46, 45])) 0 (n - 2)) alnum))
 
+/-- hostname / login name of any length (used under `head63`, which bounds the whole head) -/
+def hostAny : RE := cat alnum (opt (cat (star (cls (bmAlnum ||| bmOfList [95, 46, 45]))) alnum))
+def userAny : RE := cat (cls (bmLower ||| bmOfList [95])) (star (cls (bmLower ||| bmDigit ||| bmOfList [95, 45])))
+/-- at most 63 bytes -/
+def head63 (x : RE) : RE := .and x (rep any 1 63)
+
 def s (x : String) : RE := RE.str x
 def blankOpt : RE := opt (byte 32)
 def minus (a b : RE) : RE := .and a (.not b)
@@ -73,7 +80,7 @@ def iosxe : List Mode := [
 /-! ### Cisco IOS-XR — `RP/0/RP0/CPU0:host#`, `RP/0/RP0/CPU0:host(config…)#`; configuration and
     configuration_exclusive show the same prompt (share group) -/
 def iosxrLoc : RE := cats [s "RP/0/", alt (s "RP") (s "RSP"), digit, s "/CPU", digit, s ":"]
-def iosxrHead : RE := cat iosxrLoc (hostN 48)
+def iosxrHead : RE := head63 (cat iosxrLoc hostAny)
 def iosxr : List Mode := [
   ⟨"privilege_exec", ["privilege_exec"], cats [iosxrHead, s "#", blankOpt]⟩,
   ⟨"configuration", ["configuration", "configuration_exclusive"], cats [iosxrHead, configDeco sub, blankOpt]⟩]
@@ -100,8 +107,8 @@ def nxosS (names : List String) : List Mode :=
    nxosSessionMode names]
 def nxosSFull : List Mode := [nxosConfig nxosSub]
 
-/-! ### Arista EOS — `[user@]host>`; sessions `host(config-s-<first 6 chars of name>[-<sub>])#` -/
-def eosHead : RE := alt host (cats [user, s "@", hostN 31])
+/-! ### Arista EOS — `host>` (EOS prints no `user@`); sessions `host(config-s-<first 6 chars of name>[-<sub>])#` -/
+def eosHead : RE := host
 def eosSub : RE := minus sub (startsWith "s-")
 def eos : List Mode := [
   ⟨"exec", ["exec"], cats [eosHead, s ">", blankOpt]⟩,
@@ -121,11 +128,11 @@ def eosSFull (names : List String) : List Mode := eosSessionModes eosHead names
     (`{master:0}`, `{primary:node0}`, `{master}`; in configuration mode followed by `[edit]`),
     shell `%` / `$`, root shell `root@host:~ #`, `root@host%`, `root@%`, `root@host:RE:0%`.
     The three configuration levels show the same prompt (share group). -/
-def junosHead : RE := cats [user, s "@", hostN 31]
-def banner : RE := cats [s "{", rep (cls bmLower) 1 12,
-  opt (cats [s ":", rep (cls bmLower) 0 8, digit]), s "}"]
-def pathSeg : RE := rep (cls (bmAlnum ||| bmOfList [95, 46, 45])) 1 16
-def path : RE := alt (s "~") (cat (opt (s "~")) (rep (cat (s "/") pathSeg) 1 4))
+def junosHead : RE := head63 (cats [userAny, s "@", hostAny])
+def banner : RE := cats [s "{", plus (cls bmLower),
+  opt (cats [s ":", star (cls bmLower), digit]), s "}"]
+def pathSeg : RE := plus (cls (bmAlnum ||| bmOfList [95, 46, 45]))
+def path : RE := alt (s "~") (cat (opt (s "~")) (plus (cat (s "/") pathSeg)))
 def junosExecG : RE := cats [opt (cat banner (s "\n")), junosHead, s ">", blankOpt]
 def junosConfigG : RE :=
   cats [opt (alt (cats [banner, s "[edit]\n"]) (s "[edit]\n")), junosHead, s "#", blankOpt]
